@@ -756,3 +756,95 @@ func TestP_KnownP30(t *testing.T) {
 		c.NonTrivial()
 	})
 }
+
+// TestSiblingTables: two hotspot rules on one resource that are identical except for their specific-item tables (of the
+// same size; one of them bans a value with threshold 0). Everything happens at one instant (durations of 10 s: nothing is
+// refilled). After a reload that removes the banning rule, or lists the two in the other order, the remaining rules are
+// unchanged and keep their counters: a value that had used up its specific quota stays exhausted; and the ban is in force
+// exactly as long as the banning rule is listed: once it is gone the banned value gets the other rule's general quota.
+func TestSiblingTables(t *testing.T) {
+	hx.Check(t, hx.N{Quick: 2000, Thorough: 20000}, func(t *rapid.T, c *hx.Case) {
+		hx.Reset(hx.Epoch + uint64(rapid.IntRange(0, 999).Draw(t, "t0")))
+		T := int64(rapid.IntRange(2, 4).Draw(t, "T"))
+		shared := int64(rapid.IntRange(1, 5).Draw(t, "sharedItem"))
+		staffQ := int64(rapid.IntRange(1, int(T)).Draw(t, "staffQuota"))
+		mk := func(id string, table map[interface{}]int64) *hotspot.Rule {
+			return &hotspot.Rule{ID: id, Resource: "a", MetricType: hotspot.QPS, ControlBehavior: hotspot.Reject, ParamIndex: 0, Threshold: T, DurationInSec: 10, SpecificItems: table}
+		}
+		ban := func() *hotspot.Rule { return mk("ban", map[interface{}]int64{"banned": 0, "vip": shared}) }
+		oth := func() *hotspot.Rule { return mk("oth", map[interface{}]int64{"staff": staffQ, "vip": shared}) }
+		banFirst := rapid.Bool().Draw(t, "banningRuleFirst")
+		first := []*hotspot.Rule{ban(), oth()}
+		if !banFirst {
+			first = []*hotspot.Rule{oth(), ban()}
+		}
+		if _, err := hotspot.LoadRules(first); err != nil || len(hotspot.GetRulesOfResource("a")) != 2 {
+			t.Fatalf("load: %v", err)
+		}
+		ask := func(v string) bool {
+			e, blk := sentinel.Entry("a", sentinel.WithArgs(v))
+			if e != nil {
+				e.Exit()
+			}
+			return blk == nil
+		}
+		// staff uses up its quota (the banning rule's general threshold T >= staffQ never binds first)
+		got := int64(0)
+		for i := int64(0); i < staffQ+1; i++ {
+			if ask("staff") {
+				got++
+			}
+		}
+		if got != staffQ {
+			t.Fatalf("before the reload: %d staff requests admitted, specific quota %d", got, staffQ)
+		}
+		if ask("banned") {
+			t.Fatalf("before the reload: the banned value was admitted")
+		}
+		othSawBanned := int64(0)
+		if !banFirst {
+			othSawBanned = 1 // listed first, the other rule was consulted (and charged) before the ban blocked the request
+		}
+		kind := rapid.SampledFrom([]string{"ban removed", "swapped"}).Draw(t, "reload")
+		var next []*hotspot.Rule
+		switch kind {
+		case "ban removed":
+			next = []*hotspot.Rule{oth()}
+		case "swapped":
+			next = []*hotspot.Rule{first[1], first[0]}
+			next = []*hotspot.Rule{copyHot(next[0]), copyHot(next[1])}
+		}
+		var err error
+		if rapid.Bool().Draw(t, "perResource") {
+			_, err = hotspot.LoadRulesOfResource("a", next)
+		} else {
+			_, err = hotspot.LoadRules(next)
+		}
+		if err != nil || len(hotspot.GetRulesOfResource("a")) != len(next) {
+			t.Fatalf("reload: %v", err)
+		}
+		c.Op("T=%d staff quota=%d banning rule first=%v reload: %s", T, staffQ, banFirst, kind)
+		if ask("staff") {
+			t.Fatalf("reload (%s): the unchanged rule with the staff quota %d lost its counters: staff, exhausted before the reload, is admitted again at the same instant", kind, staffQ)
+		}
+		switch kind {
+		case "swapped":
+			if ask("banned") {
+				t.Fatalf("reload (swapped): the banning rule is still listed but the banned value was admitted")
+			}
+		case "ban removed":
+			want := T - othSawBanned
+			got := int64(0)
+			for i := int64(0); i < T+1; i++ {
+				if ask("banned") {
+					got++
+				}
+			}
+			if got != want {
+				t.Fatalf("reload (ban removed): the rule with the ban is gone; of %d requests for the formerly banned value %d were admitted, the remaining rule's general quota leaves %d", T+1, got, want)
+			}
+		}
+		c.NonTrivial()
+		c.Class("sibling-tables: " + kind)
+	})
+}
